@@ -407,3 +407,39 @@ func GRPCDialAs(b *plugin.GRPCBroker, id uint32, cred string, timeout time.Durat
 	}
 	return true, ""
 }
+
+// MuxDialOneWay dials id, writes one frame and closes its end at once (a sender that is done).
+func MuxDialOneWay(b *plugin.MuxBroker, id uint32, nonce string, n int) error {
+	conn, err := b.Dial(id)
+	if err != nil {
+		return fmt.Errorf("dial: %w", err)
+	}
+	conn.SetDeadline(time.Now().Add(xchgDeadline))
+	if err := writeFrame(conn, id, nonce, n); err != nil {
+		conn.Close()
+		return fmt.Errorf("write: %w", err)
+	}
+	return conn.Close()
+}
+
+// MuxAcceptLate accepts id and only starts reading after delay (a slow consumer): it must still get the
+// complete frame followed by EOF.
+func MuxAcceptLate(b *plugin.MuxBroker, id uint32, delay time.Duration) (Xchg, error) {
+	conn, err := b.Accept(id)
+	if err != nil {
+		return Xchg{}, fmt.Errorf("accept: %w", err)
+	}
+	defer conn.Close()
+	time.Sleep(delay)
+	conn.SetDeadline(time.Now().Add(xchgDeadline))
+	x, err := readFrame(conn)
+	if err != nil {
+		return x, err
+	}
+	extra, err := io.Copy(io.Discard, conn)
+	x.Extra = int(extra)
+	if err != nil {
+		return x, fmt.Errorf("after the frame: %w (want EOF)", err)
+	}
+	return x, nil
+}
